@@ -243,21 +243,58 @@ def subst_target(t, env):
     return t
 
 
+def _loop_heads(cfg):
+    heads = set()
+    for n in cfg.g.nodes:
+        k = cfg.kind(n)
+        if k == "for":
+            heads.add(n)
+        elif k == "test" and isinstance(cfg.stmt(n), ast.While):
+            heads.add(n)
+    return heads
+
+
 def paths(cfg, src=None, dst=None, avoid=()):
+    """Paths src -> dst on which every node occurs once, except loop heads, which may occur twice
+    (enter the body once, come back, leave): each loop body is executed at most once."""
     src = cfg.entry if src is None else src
-    targets = [cfg.exit, cfg.raise_exit] if dst is None else [dst]
-    n = 0
+    targets = {cfg.exit, cfg.raise_exit} if dst is None else {dst}
+    avoid = set(avoid)
+    heads = _loop_heads(cfg)
     g = cfg.g
-    if avoid:
-        g = g.subgraph([x for x in g.nodes if x not in set(avoid)])
-    for t in targets:
-        if t not in g or src not in g:
+    count = {}
+    n_found = [0]
+    out = []
+    # iterative DFS with explicit stack of (node, iterator over successors)
+    path = [src]
+    count[src] = 1
+    stack = [iter(sorted(g.successors(src)))]
+    if src in targets and dst is not None and src == dst:
+        pass
+    while stack:
+        it = stack[-1]
+        nxt = next(it, None)
+        if nxt is None:
+            stack.pop()
+            last = path.pop()
+            count[last] -= 1
             continue
-        for p in nx.all_simple_paths(g, src, t):
-            n += 1
-            if n > MAX_PATHS:
+        if nxt in avoid:
+            continue
+        limit = 2 if nxt in heads else 1
+        if count.get(nxt, 0) >= limit:
+            continue
+        if nxt in targets:
+            n_found[0] += 1
+            if n_found[0] > MAX_PATHS:
                 raise OverflowError("more than %d paths" % MAX_PATHS)
-            yield p
+            yield path + [nxt]
+            if dst is not None:
+                continue
+            continue
+        path.append(nxt)
+        count[nxt] = count.get(nxt, 0) + 1
+        stack.append(iter(sorted(g.successors(nxt))))
 
 
 def summaries(cfg, src=None, dst=None, start_env=None, feasible_only=True, include_raise=False, value_only=False):
